@@ -57,7 +57,7 @@ func genC05(t *rapid.T) C05Case {
 	c := C05Case{Tree: tc}
 	for i := range sub {
 		st := sub[i]
-		st.Validated = false
+		st.Malleated = false
 		c.Steps = append(c.Steps, C05Step{Submit: &st, Quiet: kit.Chance(t, 30, "quiet")})
 		for kit.Chance(t, 45, "poolroll") {
 			ps := &PoolStep{V2: kit.Chance(t, 65, "v2"), UseNext: kit.Chance(t, 35, "usenext"), Blind: kit.Chance(t, 30, "blind")}
@@ -259,11 +259,23 @@ func runC05(c C05Case, cs *kit.CaseStats) error {
 		where := fmt.Sprintf("step %d", si)
 		switch {
 		case st.Submit != nil:
-			_, blocks, _, _ := tr.ResolveBatch(*st.Submit, known)
+			_, blocks, states, validated := tr.ResolveBatch(*st.Submit, known)
 			if len(blocks) == 0 {
 				continue
 			}
-			serr := node.Submit(blocks)
+			var serr error
+			if validated {
+				cs.Class("call=AddValidatedV2Blocks")
+				for _, b := range blocks {
+					node.Submitted[b.ID()] = true
+				}
+				serr = node.CM.AddValidatedV2Blocks(blocks, states)
+				if h := node.CM.Tip().Height; h > node.MaxHeight {
+					node.MaxHeight = h
+				}
+			} else {
+				serr = node.Submit(blocks)
+			}
 			where = fmt.Sprintf("step %d (blocks %v, err=%v)", si, st.Submit.Batch, serr)
 
 		case st.Pool != nil:
